@@ -237,6 +237,10 @@ def admissible_local(run, rec):
     can_be_empty = {}
     dangling, link_usable_somewhere = [], False
     for nodes, env in states:
+        # isfile("/etc/localtime") may be answered on a plain file and islink()/realpath() on the
+        # dangling link that replaced it a moment later: the link's name is then what discovery uses
+        if _file(nodes, "/etc/localtime") is not None:
+            link_usable_somewhere = True
         for src, (z, mr) in mentions(nodes, env, shorts).items():
             if src == "dangling-link-name":
                 dangling += z
@@ -366,6 +370,13 @@ def gen(rp, rw, tier):
                     if rz:
                         kw["raise_on_unknown_times"] = True
                     ops.append(["pcall", "datetime", w, kw])
+                elif y < 0.5 and rp.random() < 0.3:
+                    # built in UTC with the factory, then re-zoned by wall clock
+                    T = {"$": "dt", "f": w, "tz": "UTC", "fold": rp.choice([1, 1, 0])}
+                    if rp.random() < 0.5:
+                        ops.append(["call", T, "set", [], {"tz": gen_dt.tz_spec(z)}])
+                    else:
+                        ops.append(["call", T, "replace", [], {"tzinfo": gen_dt.tz_spec(z)}])
                 elif y < 0.5:
                     T = {"$": "dt", "f": _wall(rp, z), "tz": z, "fold": fold}
                     m = rp.choice(["set", "on", "at", "replace"])
@@ -521,9 +532,22 @@ def _construction(run, a, op):
                 for k, v in kw.items():
                     if k in names:
                         w[names.index(k)] = v
+            zone = tgt["tz"]
+            if m == "set" and "tz" in kw:
+                zone = _zone_from_spec(kw["tz"])
+            if m == "replace" and "tzinfo" in kw:
+                zone = _zone_from_spec(kw["tzinfo"])
             if m == "replace" and "fold" in kw:
-                return tgt["tz"], w, kw["fold"], False
-            return ("carried", tgt["tz"]), w, None, False
+                return zone, w, kw["fold"], False
+            # the fold passed on is the one the instance carries: the documented one (the fold
+            # given to the constructor, default 1) when the instance's own wall time exists once
+            try:
+                own_unique = isinstance(tgt["tz"], int) or tzdb.classify(tgt["tz"], tgt["f"]) == "unique"
+            except Exception:
+                own_unique = False
+            if own_unique:
+                return zone, w, tgt.get("fold", 1), False
+            return ("carried", zone), w, None, False
     return None
 
 
